@@ -4,6 +4,7 @@ import TucanProofs.Lemmas.V3000Lines
 import TucanProofs.Lemmas.V3000File
 import TucanProofs.Lemmas.GraphFromMoleculeKeys
 import TucanProofs.Lemmas.Files
+import TucanProofs.Lemmas.StarExample
 /-!
 # C07 — the V3000 reader decodes exactly the molecule the file states
 
@@ -149,6 +150,17 @@ theorem C07_explicit_zero_is_default (vals : List Int) :
   intro v hv
   simp [lastNonZero, hv]
 
+end Tucan
+
+namespace Tucan
+/-- non-vacuity of `C07_connection_table_every_spelling` with a star atom: atom indices 1, 2, 5 (star), 9, a bond
+`9–5` with `ATTACH=ALL ENDPTS=(2 1 2)`: three atoms come back (keys 0, 1, 8) and three bonds, one from the iron
+to each listed endpoint -/
+example : graphAttributesV3000 StarExample.lines =
+      .ok (atomDictOf StarExample.atoms, bondDictOf (starsOf StarExample.atoms) StarExample.bonds) ∧
+    (atomDictOf StarExample.atoms).map (·.1) = [0, 1, 8] ∧
+    (bondDictOf (starsOf StarExample.atoms) StarExample.bonds).map (·.1) = [(0, 1), (8, 0), (8, 1)] :=
+  ⟨StarExample.reads.1, StarExample.reads.2.1, StarExample.reads.2.2.2⟩
 end Tucan
 
 namespace Tucan
